@@ -480,9 +480,22 @@ def $gen($a):
             "output's name, and a part gets an output that is a placeholder of itself")
 
 
+def r_hash_cache(c):
+    """communication identifiers and parts are pickled between ranks (allreduce,
+    bcast, gather): a cached hash travels with them and is stale under another
+    rank's hash seed, so lookups of identifiers that came from another rank miss"""
+    from pta.rules.common import check_no_pickled_hash_cache
+    check_no_pickled_hash_cache(
+        c, "R09-NOCOMM", [D + "partition", D + "nodes", D + "tags", D + "verify"],
+        "an identifier received from another rank (other PYTHONHASHSEED) is not found in "
+        "dict/set lookups: a valid program is rejected with a false Missing*Error")
+    c.ok("R09-NOCOMM", "distributed.*", "classes-with-__hash__-scanned",
+         "pytato/distributed", nontrivial=False)
+
+
 SPEC = Spec(
     prop="C09",
-    rules=[r_collectives, r_nocomm, r_tags, r_names, r_forwarded, r_placement, r_deps, r_name_table],
+    rules=[r_collectives, r_nocomm, r_tags, r_names, r_forwarded, r_placement, r_deps, r_name_table, r_hash_cache],
     floors={"R09-COLLECTIVES": 7, "R09-NOCOMM": 4, "R09-TAGS": 4, "R09-NAMES": 5,
             "R09-PLACEMENT": 4},
     explanation=(
